@@ -280,8 +280,14 @@ private:
                 return false;
             }
 
-            m_senders_waiting.fetch_add(1, std::memory_order_acq_rel);
-            int ret = m_send_sem.wait(1, timeout.timeout_us());
+            // Register as a waiter *before* the final check of the queue: a
+            // receiver pops first and looks at m_senders_waiting afterwards,
+            // so either it sees us (and signals) or we see the free slot.
+            m_senders_waiting.fetch_add(1, std::memory_order_seq_cst);
+            int ret = 0;
+            if (m_queue->read_available() >= m_capacity &&
+                !m_closed.load(std::memory_order_acquire))
+                ret = m_send_sem.wait(1, timeout.timeout_us());
             m_senders_waiting.fetch_sub(1, std::memory_order_acq_rel);
 
             if (ret < 0 && errno == ETIMEDOUT) {
@@ -314,8 +320,13 @@ private:
                 return false;
             }
 
-            m_receivers_waiting.fetch_add(1, std::memory_order_acq_rel);
-            int ret = m_recv_sem.wait(1, timeout.timeout_us());
+            // Register as a waiter *before* the final check of the queue (see
+            // buffered_send): a sender pushes first and looks at
+            // m_receivers_waiting afterwards, and close() sets m_closed first.
+            m_receivers_waiting.fetch_add(1, std::memory_order_seq_cst);
+            int ret = 0;
+            if (m_queue->empty() && !m_closed.load(std::memory_order_acquire))
+                ret = m_recv_sem.wait(1, timeout.timeout_us());
             m_receivers_waiting.fetch_sub(1, std::memory_order_acq_rel);
 
             if (ret < 0 && errno == ETIMEDOUT) {
